@@ -206,7 +206,7 @@ fn hlt_case(init: &bool, obs: &mut Obs) -> CaseResult {
     cp.set_if(*init);
     interrupts::enable_and_hlt();
     let log = cp.take_log();
-    let fin = cp.if_flag;
+    let fin = cpu().if_flag;
     cp.reset();
     ensure!(log.len() == 2 && log[0].op == Op::Sti && log[1].op == Op::Hlt, "enable_and_hlt executed {:x?}, expected sti; hlt", log);
     ensure_eq!(log[1].rip, log[0].rip + log[0].len as u64, "hlt must be the instruction immediately after sti ({:x?})", log);
@@ -217,7 +217,7 @@ fn hlt_case(init: &bool, obs: &mut Obs) -> CaseResult {
     x86_64::instructions::hlt();
     let log = cp.take_log();
     ensure!(log.len() == 1 && log[0].op == Op::Hlt, "hlt() executed {:x?}", log);
-    ensure_eq!(cp.if_flag, *init, "hlt() must not change the flag");
+    ensure_eq!(cpu().if_flag, *init, "hlt() must not change the flag");
     cp.reset();
     obs.nontrivial(init);
     Ok(())
@@ -227,7 +227,7 @@ pub fn run(run: &mut Run) {
     umh::install();
     run.assume("cli/sti/hlt executed in ring 3 raise #GP and are emulated on an emulated IF; rflags::read_raw shows that IF through hook H2 (pushfq cannot be trapped)");
     run.assume("'no interrupt window' is decided as adjacency of sti and hlt in the executed instruction stream, not by injecting interrupts");
-    let n = run.cases(40_000, 3_000_000);
+    let n = run.cases(120_000, 6_000_000);
     run.sub(
         "nesting",
         "initial IF in {0,1} x programs from Block := Stmt*; Stmt := Nested(Block) | Probe | BalancedToggle | Value(u64) | EnableDisable (depth <= 6, <= 40 nodes) interpreted with real nested closures around without_interrupts; oracle: closure runs exactly once with IF=0, result returned, IF after = IF before, trap trace = [cli] before and [sti] after iff IF was 1 at entry, enable/disable = exactly one sti/cli and no other emulated register changes, are_enabled = emulated IF; non-trivial = nesting depth >= 2 with IF=0 at entry of some without_interrupts (the branch user space can never reach natively); distinct by (initial IF, statement shape)",
